@@ -12,7 +12,8 @@ META = {
                  "after a symbolic even gap); shapes under 2 configurations: one note with onset even 0..200 (rests crossing two bar "
                  "lines), 4 signature plans on bar boundaries, tracks of unequal length, simultaneous notes within and across tracks, "
                  "trailing rest with symbolic cap (duration clause)",
-        "thorough": "as quick with velocity_bins {1,2,5,8}, note values [6,12,24], first onset 0..24, pitch symbolic, 3 tracks",
+        "thorough": "as quick with velocity_bins {1,2,5,8} x tracks {1,2} for all 16 flag combinations, note values [6,12,24] with symbolic pitch, 3 tracks, "
+                    "every signature plan (incl. 16/8, 2/4->8/4, 3/8) under 3 configurations for the onset and trailing-rest queries",
     },
     "outside_claim": ["more than 3 notes / 2 bars of onsets in the lattice sweep", "odd onsets (the greedy rest decomposition rejects e.g. 9 = 8+1; "
                       "the tokeniser's accepted grid is read as even ticks)", "custom step_sizes / time_signature_range / ppqn",
@@ -126,6 +127,9 @@ def roundtrip(ctx, tok, piece, check_duration=False):
     ctx.note("signatures_out", sig_out)
     if check_duration and piece.cap is not None:
         c = piece.cap
+        # a signature event after the cap extends the piece to its tick
+        for (tt, _n, _d) in PLANS[piece.plan]:
+            c = ite(c < tt, tt, c)
         want = lines[-1]
         for b in reversed(lines):
             want = ite(c <= b, b, want)
@@ -185,7 +189,8 @@ def q_cap(fl, bins, plan, kmax):
         p.add(1, 61, 2 * k + 6, 6, 90)
         c = ctx.int("c", 0, kmax)
         p.cap = 2 * c
-        ctx.assume(p.cap >= 2 * k + 12)
+        # a genuine trailing rest: the cap lies after every note end (a cap on the last note-off is no rest at all)
+        ctx.assume(p.cap > 2 * k + 12)
         return roundtrip(ctx, tok, p, check_duration=True)
     return Query(f"cap/{plan}/f{''.join(str(int(x)) for x in fl)}-b{bins}/c{kmax}", fn, CL + ["duration_rounded_up_to_bar_end"],
                  desc="trailing rest up to a symbolic cap: total duration rounded up to the bar end")
@@ -243,13 +248,13 @@ def queries(tier, seed):
         for fl in FLAGS:
             for bins in (1, 2, 5, 8):
                 for ntr in (1, 2):
-                    qs.append(q_lattice(fl, bins, ntr, 12 if bins <= 2 else 3))
-            qs.append(q_lattice(fl, 2, 1, 6, nv=(6, 12, 24), sympitch=True))
-            qs.append(q_lattice(fl, 1, 3, 3))
+                    qs.append(q_lattice(fl, bins, ntr, 2 if bins <= 2 else 0, v2max=127 if bins <= 2 else 40))
+            qs.append(q_lattice(fl, 2, 1, 3, nv=(6, 12, 24), sympitch=True))
+            qs.append(q_lattice(fl, 1, 3, 1))
         for plan in PLANS:
             for fl, bins in ((FLAGS[0], 1), (FLAGS[15], 2), (FLAGS[6], 5)):
-                qs.append(q_onset(fl, bins, plan, 150))
-                qs.append(q_cap(fl, bins, plan, 150))
+                qs.append(q_onset(fl, bins, plan, 120))
+                qs.append(q_cap(fl, bins, plan, 120))
         for fl in FLAGS:
             qs.append(q_sim(fl, 2))
             qs.append(q_late_signature(fl, 2))
